@@ -450,6 +450,63 @@ func init() {
 				}
 			}
 			r.Extra["family_depth"] = depth
+			// across families: breadth-first over a core alphabet (one or two invocations per subcommand) to depth 3 (quick) / 4 (thorough),
+			// de-duplicated on the directory state
+			if complete {
+				var core []c14Inv
+				seenCmd := map[string]int{}
+				for _, inv := range sigma {
+					if inv.Stdin != "A" && inv.Stdin != "M" && inv.Stdin != "BAD" {
+						continue
+					}
+					k := inv.Args[0] + "|" + inv.Stdin
+					if inv.Stdin == "BAD" && inv.Args[0] != "reverse" && inv.Args[0] != "summary" {
+						continue
+					}
+					limit := 1
+					if inv.Args[0] == "extract" || inv.Args[0] == "insert" || inv.Args[0] == "select" {
+						limit = 2
+					}
+					if seenCmd[k] >= limit {
+						continue
+					}
+					seenCmd[k]++
+					core = append(core, inv)
+				}
+				r.Extra["core_alphabet"] = len(core)
+				coreDepth := 3
+				if thorough {
+					coreDepth = 4
+				}
+				coreSeen := engine.NewHashSet()
+				frontier := []node{{clidrv.State{}, nil}}
+				for d := 1; d <= coreDepth && complete; d++ {
+					var next []node
+					var nmu sync.Mutex
+					done := r.ParallelFor(len(frontier)*len(core), func(idx int) {
+						n := frontier[idx/len(core)]
+						inv := core[idx%len(core)]
+						nn, ok := judge(inv, n)
+						if ok && coreSeen.Add(nn.st.Key()) {
+							if seen.Add(nn.st.Key()) {
+								r.States.Add(1)
+							}
+							nmu.Lock()
+							next = append(next, nn)
+							nmu.Unlock()
+						}
+					})
+					complete = complete && done
+					if done {
+						r.Extra["core_depth_completed"] = d
+					}
+					frontier = next
+					if len(frontier) > 6000 {
+						r.MarkCapped(fmt.Sprintf("core BFS frontier of %d states at depth %d cut to 6000", len(frontier), d))
+						frontier = frontier[:6000]
+					}
+				}
+			}
 			r.Assumptions = []string{"stderr is not compared; every run is hermetic (HOME, XDG_CACHE_HOME, TMPDIR in a scratch directory, stdin a file)", "the alphabet is a menu, not the full option product: an option outside it is not covered"}
 			return complete
 		},
